@@ -42,7 +42,7 @@ def number(rng):
 def atom(rng):
     r = rng.random()
     if r < 0.45:
-        return rng.choice((X, Y, Z, S('w'), S('a_long_symbol_name_with_unicode_α'), S(''), S('x y'), S('"q"')))
+        return rng.choice((X, Y, Z, S('w'), S('a_long_symbol_name_with_unicode_α'), S(''), S('x y'), S('"q"'), S('a<b&c')))
     return number(rng)
 
 
